@@ -708,7 +708,7 @@ def _replace_in(root: ast.AST, target: ast.AST, new: ast.AST) -> bool:
 
 
 _PURE_STATIC = {"int.from_bytes", "int.to_bytes", "bytes.fromhex", "struct.pack", "struct.unpack", "struct.unpack_from", "struct.calcsize",
-                "math.ceil", "math.floor", "math.log", "math.log2", "math.pow", "math.sqrt"}
+                "math.ceil", "math.floor", "math.log", "math.log2", "math.pow", "math.sqrt", "re.sub", "re.match", "re.search", "re.fullmatch", "re.compile"}
 
 
 _PURE_SELF_METHODS: set = set()          # per module: methods that store nothing and call nothing harmful (set by canonicalise)
@@ -718,6 +718,8 @@ def _pure_self_methods(tree: ast.Module) -> set:
     """Names of methods that, in every class of the module that defines them, store no attribute or item, declare no global and
     call only harmless things or other such methods of self (fixed point)."""
     defs = {}
+    for m in [n for n in tree.body if isinstance(n, ast.FunctionDef)]:
+        defs.setdefault("::" + m.name, []).append(m)          # module-level functions, called by bare name
     for c in [n for n in tree.body if isinstance(n, ast.ClassDef)]:
         for m in [n for n in c.body if isinstance(n, ast.FunctionDef)]:
             defs.setdefault(m.name, []).append(m)
@@ -750,6 +752,8 @@ def _harmful_calls(e: ast.AST):
         if not isinstance(x, ast.Call):
             continue
         f = x.func
+        if isinstance(f, ast.Name) and "::" + f.id in _PURE_SELF_METHODS:
+            continue                    # a module-level function that stores nothing and calls nothing harmful
         if isinstance(f, ast.Name) and (f.id in _PURE_BUILTINS or f.id in ("hasattr", "getattr", "repr", "format", "pretty_index") or f.id.endswith(("Error", "Exception", "Warning"))):
             continue                    # pure built-ins; exception constructors (the repository's are plain data holders)
         if isinstance(f, ast.Attribute) and isinstance(f.value, ast.Constant):
